@@ -397,8 +397,8 @@ class _PythonCodeAssist:
 
     def _find_starting_offset(self, source_code, offset):
         current_offset = offset - 1
-        while current_offset >= 0 and (
-            source_code[current_offset].isalnum() or source_code[current_offset] in "_"
+        while current_offset >= 0 and worder.is_identifier_char(
+            source_code[current_offset]
         ):
             current_offset -= 1
         return current_offset + 1
